@@ -815,6 +815,30 @@ fn run_race(v: &Value, out: &mut Vec<String>) {
 }
 
 fn run_one(v: &Value, out: &mut Vec<String>) {
+    // "closed_std": the parent runs with some of its standard descriptors closed
+    let closed: Vec<(i32, i32)> = v["closed_std"]
+        .as_array()
+        .map(|l| {
+            l.iter()
+                .map(|x| {
+                    let fd = x.as_i64().unwrap() as i32;
+                    let keep = unsafe { simk::raw::fcntl(fd, libc::F_DUPFD_CLOEXEC, 100) };
+                    unsafe { simk::raw::close(fd) };
+                    (fd, keep)
+                })
+                .collect()
+        })
+        .unwrap_or_default();
+    run_one_body(v, out);
+    for (fd, keep) in closed {
+        unsafe {
+            simk::raw::dup2(keep, fd);
+            simk::raw::close(keep);
+        }
+    }
+}
+
+fn run_one_body(v: &Value, out: &mut Vec<String>) {
     let _ = fs::create_dir_all(tmpd());
     let kind = v["kind"].as_str().unwrap();
     out.push(json!({"e":"reset","id":v["id"],"kind":kind,"cfg":v,"base":fd_table()}).to_string());
